@@ -397,9 +397,12 @@ type hwDoc struct {
 	NilPtr *hwInner
 	Nums   []float64
 	Strs   []string
+	PSlice *[]string // a pointer to a slice is not an array for any function: type errors, never panics
+	PNil   *[]string
 }
 
-var hwExprs = []string{"\"«Üep\"", "\"«Ñep\"", "\"«Öep\"", "\"·Éê·Éú·Éò\"", "\"·≤ê·Éú·Éò\"", "[\"«Üep\", \"·Éê·Éú·Éò\"]", "Items[*].\"«Üep\"", "length(\"·Éê·Éú·Éò\")", "_x", "lower", "Lower", "\"√ºn√Ø\"", "\"√ún√Ø\"", "Items[*].\"√ºn√Ø\"", "\"œâmega\"", "@.\"Œ©mega\"", "[\"√ºn√Ø\", \"œâmega\"]", "{a: \"√ºn√Ø\"}", "\"√ºn√Ø\" || Name", "length(\"√ºn√Ø\")", "Label", "label", "hwEmbedded", "HwEmbedded.Label", "NilPtr.[Name]", "NilPtr.{a: Name}",
+var hwExprs = []string{"length(PSlice)", "reverse(PSlice)", "PSlice[0]", "PSlice[*]", "PSlice[1:]", "PSlice[]", "PSlice[?@]", "contains(PSlice, 'a')", "map(&@, PSlice)", "sort_by(PSlice, &@)", "max_by(PSlice, &@)", "min_by(PSlice, &@)", "sort(PSlice)", "join(',', PSlice)",
+	"to_array(PSlice)", "to_string(PSlice)", "type(PSlice)", "not_null(PSlice)", "PSlice == PSlice", "PSlice || Name", "length(PNil)", "reverse(PNil)", "PNil[0]", "PNil[*]", "contains(PNil, 'a')", "map(&@, PNil)", "type(PNil)", "merge(@, {a: PSlice})", "keys(PSlice)", "values(PSlice)", "max(PSlice)", "sum(PSlice)","\"«Üep\"", "\"«Ñep\"", "\"«Öep\"", "\"·Éê·Éú·Éò\"", "\"·≤ê·Éú·Éò\"", "[\"«Üep\", \"·Éê·Éú·Éò\"]", "Items[*].\"«Üep\"", "length(\"·Éê·Éú·Éò\")", "_x", "lower", "Lower", "\"√ºn√Ø\"", "\"√ún√Ø\"", "Items[*].\"√ºn√Ø\"", "\"œâmega\"", "@.\"Œ©mega\"", "[\"√ºn√Ø\", \"œâmega\"]", "{a: \"√ºn√Ø\"}", "\"√ºn√Ø\" || Name", "length(\"√ºn√Ø\")", "Label", "label", "hwEmbedded", "HwEmbedded.Label", "NilPtr.[Name]", "NilPtr.{a: Name}",
 	"NilPtr || Name", "NilPtr && Name", "!NilPtr", "Items[*].Name", "Items[?Name].Tags[]", "Items[].Tags", "Items[0]", "Items[1]", "Items[1].[Name]", "Items[*].[Name]", "[Ptr, NilPtr]",
 	"reverse(Nums)", "reverse(Strs)", "contains(Strs, 'a')", "contains(Nums, `1`)", "map(&@, Nums)", "map(&Name, Items)", "sort_by(Items, &Name)", "max_by(Items, &Name)", "min_by(Items, &Name)",
 	"sort(Strs)", "sort(Nums)", "sum(Nums)", "avg(Nums)", "max(Nums)", "min(Strs)", "join(',', Strs)", "length(Items)", "length(Strs)", "length(Name)", "length(@)", "length(Inner)", "keys(@)", "values(@)",
@@ -415,7 +418,7 @@ var hwExprs = []string{"\"«Üep\"", "\"«Ñep\"", "\"«Öep\"", "\"·Éê·Éú·Éò\"", "\"·
 func TestC18HandWritten(t *testing.T) {
 	in := &hwInner{Name: "n", Tags: []string{"x", "y"}}
 	docs := []interface{}{
-		hwDoc{«Ñep: "dz", ·≤ê·Éú·Éò: "ge", √ún√Ø: "u", Œ©mega: []string{"o1", "o2"}, Label: "lab", Score: 2.5, On: true, Labels: []hwLabel{"b", "a"}, Name: "d", Items: []*hwInner{in, nil, {Name: "", Tags: []string{}}}, Inner: *in, Ptr: in, Nums: []float64{2, 1}, Strs: []string{"b", "a"}},
+		hwDoc{PSlice: &[]string{"b", "a"}, «Ñep: "dz", ·≤ê·Éú·Éò: "ge", √ún√Ø: "u", Œ©mega: []string{"o1", "o2"}, Label: "lab", Score: 2.5, On: true, Labels: []hwLabel{"b", "a"}, Name: "d", Items: []*hwInner{in, nil, {Name: "", Tags: []string{}}}, Inner: *in, Ptr: in, Nums: []float64{2, 1}, Strs: []string{"b", "a"}},
 		&hwDoc{Items: []*hwInner{}, Nums: []float64{}, Strs: []string{}},
 		(*hwDoc)(nil),
 		[]hwDoc{{Name: "x", Nums: []float64{1}, Strs: []string{"a"}, Items: []*hwInner{nil}}},
@@ -665,6 +668,18 @@ func TestC19(t *testing.T) {
 			expr = genExpr(t, doc, f)
 		}
 		var input string
+		if uni(t, 8, "hardText") == 0 {
+			// results that are (or contain) strings with characters every serialiser must escape or
+			// pass through exactly: C0/C1 controls, DEL, quotes, backslashes, U+2028, a byte order
+			// mark, astral characters; also as object keys
+			s1, s2 := genHardString(t, "cliS1"), genHardString(t, "cliS2")
+			d := map[string]interface{}{"s": s1, "l": []interface{}{s2, s1}, "o": map[string]interface{}{s2: s1}, "n": hardDocNumbers[uni(t, len(hardDocNumbers), "cliNum")]}
+			expr = []string{"s", "l", "o", "[s]", "{k: s}", "join('', l)", "to_string(s)", "keys(o)", "values(o)", "@", "l[0]", "reverse(s)", "n", "[n]", "to_string(n)", "to_string(@)", "s || l", "l[?@ == s]"}[uni(t, 18, "cliHardExpr")]
+			c := withExpr(Case{Property: "C19", Kind: "cli"}, expr)
+			c.Extra = map[string]interface{}{"input": ref.Canon(d), "channel": []string{"stdin", "file"}[uni(t, 2, "hardChannel")], "dashdash": false}
+			run(t, c)
+			return
+		}
 		if uni(t, 40, "hugeInput") == 0 {
 			// one line of more than 64 KiB (line-oriented readers, fixed buffers)
 			var sb strings.Builder
